@@ -3,7 +3,7 @@
    the real searching / rotating / sorting loops of C06a and C06b).  Spec: C09/Spec.v (std::set as
    a strictly ascending list bounded by a capacity).  Every theorem holds for every element type,
    every comparator that is a strict weak order, every capacity and every history. *)
-From Tetl Require Import Lib.Base C06a.Model C09.Ops C09.Model C09.Spec C09.ProofsCore C09.ProofsOps
+From Tetl Require Import Lib.Base C06a.Model C09.Ops C09.Model C09.Spec C09.Instances C09.ProofsCore C09.ProofsOps
   C09.ProofsRun C09.ProofsExtra C09.ProofsMain.
 From Coq Require Import Sorting.Sorted Sorting.Permutation.
 
@@ -31,6 +31,18 @@ Theorem C09_static_set_sorted_unique_inv :
     /\ Forall (fun e => is_set lt (snd e) /\ length (snd e) <= cap) tr.
 Proof. exact (@main_static_set_sorted_unique_inv). Qed.
 Print Assumptions C09_static_set_sorted_unique_inv.
+
+(** 1c. One call, from ANY two sets that satisfy the invariant (reachable or not): the model returns
+        normally, the invariant holds afterwards, inside the domain the result is the specification's,
+        outside it a contract violation is reported and nothing changes. *)
+Theorem C09_step_from_any_set :
+  forall (A : Type) (lt : A -> A -> bool), strict_weak lt ->
+  forall (k : kind) (cap : nat) (s : st A) (o : op A), inv lt cap s -> op_ok lt k o ->
+  exists s' r', step lt k cap s o = Ok (s', r') /\ inv lt cap s' /\
+    (s_step lt k cap s o = None -> has_member k o = true -> s' = s /\ r' = OContract) /\
+    (forall s2 so, s_step lt k cap s o = Some (s2, so) -> s' = s2 /\ r' = present k so).
+Proof. exact (@main_step_total). Qed.
+Print Assumptions C09_step_from_any_set.
 
 (** 2. Refinement: for every history inside the documented domain of std::set bounded by the
        capacity (s_run = Some ...), the model returns exactly the specification's trace -- per call
@@ -162,7 +174,11 @@ Print Assumptions C09_spec_set_is_canonical.
     domain of theorem 2 contains a history that reaches a full set, a duplicate, a refused new key
     and an erase of an absent key with a successor. *)
 Example C09_nonvacuous :
-  strict_weak Z.ltb /\ strict_weak (fun a b => (Z.quot a 2 <? Z.quot b 2)%Z)
+  (* the comparators and heterogeneous keys of the correspondence harness satisfy the hypotheses *)
+  (strict_weak cmp_less /\ strict_weak cmp_greater /\ strict_weak cmp_half
+   /\ (forall v, cut_ok cmp_less (point_cut v))
+   /\ (forall lo hi, (lo <= hi)%Z -> cut_ok cmp_less (band_cut lo hi)))
+  /\ strict_weak Z.ltb /\ strict_weak (fun a b => (Z.quot a 2 <? Z.quot b 2)%Z)
   /\ (exists s2 tr2,
         s_run Z.ltb StaticSet 3 init
           [Insert 3%Z; Insert 1%Z; Insert 3%Z; Insert 5%Z; Insert 4%Z; EraseKey 2%Z; ErasePos 0; Swap]
@@ -177,7 +193,7 @@ Example C09_nonvacuous :
         /\ Forall (within 3) [Insert 3%Z; AssignIter [5%Z; 1%Z; 5%Z; 3%Z]; Swap; Insert 2%Z; CopyFrom; EraseKey 2%Z; Insert 3%Z]
         /\ Forall (fun e => length (snd e) <= 3) tr2).
 Proof.
-  split; [exact ltb_strict_weak|]. split; [exact half_strict_weak|]. split; [|split].
+  split; [exact instances_ok|]. split; [exact ltb_strict_weak|]. split; [exact half_strict_weak|]. split; [|split].
   - eexists. eexists. split; [vm_compute; reflexivity|]. split; reflexivity.
   - eexists. eexists. split; [vm_compute; reflexivity|]. split; reflexivity.
   - eexists. eexists. split; [vm_compute; reflexivity|]. split; [reflexivity|]. split.
